@@ -112,6 +112,18 @@ def baseline_ref_alias() -> T.Dict[str, T.List[str]]:
     return _BASELINE_ALIAS
 
 
+_BASELINE_CONST_VALUES: T.Optional[T.Dict[str, T.Dict[str, str]]] = None
+
+
+def baseline_const_values() -> T.Dict[str, T.Dict[str, str]]:
+    """Source text of the value of each module-level name of the pinned tree (sa/baseline_const_values.json)."""
+    global _BASELINE_CONST_VALUES
+    if _BASELINE_CONST_VALUES is None:
+        with open(os.path.join(os.path.dirname(os.path.abspath(__file__)), "baseline_const_values.json")) as fobj:
+            _BASELINE_CONST_VALUES = json.load(fobj)
+    return _BASELINE_CONST_VALUES
+
+
 _BASELINE_CONSTS: T.Optional[T.Dict[str, T.List[str]]] = None
 
 
@@ -1131,6 +1143,44 @@ def _literal_node(v: T.Any) -> ast.AST:
     return ast.Constant(value=v)
 
 
+def undo_const_renames(trees: T.Dict[str, ast.Module]) -> T.List[str]:
+    """A module-level name of the pinned tree that vanished while exactly one new module-level name is bound to the same
+    value expression was renamed: the old name is restored in the module (and for `module.NAME` uses elsewhere)."""
+    done: T.List[str] = []
+    for m, tree in trees.items():
+        old_vals = baseline_const_values().get(m, {})
+        if not old_vals:
+            continue
+        now: T.Dict[str, str] = {}
+        for st in tree.body:
+            if isinstance(st, (ast.Assign, ast.AnnAssign)) and getattr(st, "value", None) is not None:
+                for t in (st.targets if isinstance(st, ast.Assign) else [st.target]):
+                    if isinstance(t, ast.Name):
+                        now[t.id] = ast.unparse(st.value)
+        vanished = {k: v for k, v in old_vals.items() if k not in now}
+        fresh = {k: v for k, v in now.items() if k not in old_vals}
+        for old, val in sorted(vanished.items()):
+            cands = [k for k, v in fresh.items() if v == val]
+            if len(cands) != 1 or [k for k, v in vanished.items() if v == val] != [old]:
+                continue
+            new = cands[0]
+            if any(isinstance(n, ast.arg) and n.arg in (new, old) for n in ast.walk(tree)):
+                continue
+            for n in ast.walk(tree):
+                if isinstance(n, ast.Name) and n.id == new:
+                    n.id = old
+            for n2, t in trees.items():
+                if n2 == m:
+                    continue
+                mods, _names = _module_aliases(t)
+                for x in ast.walk(t):
+                    if isinstance(x, ast.Attribute) and x.attr == new and isinstance(x.value, ast.Name) and mods.get(x.value.id) == m:
+                        x.attr = old
+            del fresh[new]
+            done.append(f"{m}.{new} -> {old}")
+    return done
+
+
 def inline_new_constants(tree: ast.Module, m: str) -> T.List[str]:
     """A module-level name that the pinned tree does not have and that is bound once, to a literal, is a named constant
     introduced by a clean-up: its uses inside the module's functions are replaced by the literal."""
@@ -1445,6 +1495,7 @@ def normalise_program(trees: T.Dict[str, ast.Module]) -> T.Dict[str, int]:
     out = {m: 0 for m in trees}
     if os.environ.get("VERIF_NO_NORMALISE"):
         return out
+    LAST_RUN["const_renames_undone"] = undo_const_renames(trees)
     LAST_RUN["constants_inlined"] = [f"{m}.{c}" for m, t in trees.items() if baseline().get(m) for c in inline_new_constants(t, m)]
     LAST_RUN["dict_calls"] = sum(canonical_dict_calls(t) for m, t in trees.items() if baseline().get(m))
     LAST_RUN["renames_undone"] = undo_renames(trees)
